@@ -615,13 +615,13 @@ func (env *Env) binary(x *EBinary) SVal {
 		if l.Sort == "Str" {
 			switch x.Op {
 			case "<":
-				return b(app("str_lt", l.T, r.T))
+				return b(app(env.u.D.StrLt(), l.T, r.T))
 			case "<=":
-				return b(or(app("str_lt", l.T, r.T), eq(l.T, r.T)))
+				return b(or(app(env.u.D.StrLt(), l.T, r.T), eq(l.T, r.T)))
 			case ">":
-				return b(app("str_lt", r.T, l.T))
+				return b(app(env.u.D.StrLt(), r.T, l.T))
 			default:
-				return b(or(app("str_lt", r.T, l.T), eq(l.T, r.T)))
+				return b(or(app(env.u.D.StrLt(), r.T, l.T), eq(l.T, r.T)))
 			}
 		}
 		return b(app(x.Op, l.T, r.T))
@@ -799,18 +799,20 @@ func (env *Env) call(x *ECall) SVal {
 		}
 		h := "T_arg_" + key
 		return env.sv(sel(env.cur.heap(h, "(Array Int "+d.SortOf(t)+")"), i.T), t)
-	case "tres":
+	case "tres", "tres1", "trecv":
 		// tres("Name", i): first result of event i, which must be an event of the traced callback Name
+		// (tres1: second result, trecv: receiver)
 		sname, ok := x.Args[0].(*EStr)
 		if !ok {
-			fail("tres(\"Name\", eventIndex)")
+			fail("%s(\"Name\", eventIndex)", x.Fn)
 		}
 		i := env.value(env.eval(x.Args[1]))
-		t, ok := u.traceArgType[sname.V+"_res"]
+		suffix := strings.TrimPrefix(x.Fn, "t")
+		t, ok := u.traceArgType[sname.V+"_"+suffix]
 		if !ok {
-			fail("no traced result of callback %s", sname.V)
+			fail("no traced %s of callback %s", suffix, sname.V)
 		}
-		h := "T_res_" + sname.V
+		h := "T_" + suffix + "_" + sname.V
 		return env.sv(sel(env.cur.heap(h, "(Array Int "+d.SortOf(t)+")"), i.T), t)
 	case "kind":
 		// kind("Name"): the event kind of a traced callback of the function under verification
